@@ -468,3 +468,374 @@ def check_C08(ctx, rep):
             rep.ob('C08.R1', fn, 'no-overflowing-arithmetic', False, 'checked arithmetic in update_counter: %s' % t['msg'][:80])
     rep.assumptions += ['every CFG path is treated as feasible', 'sampled magnitudes are not decided']
     return 'operation table, copy/sample provenance, zero-detection guard and once-per-call flags of update_counter'
+
+
+# =================================================================== C09
+
+def signal_calls(prog, an):
+    """all call sites transition(_, Event::Signal) in the maybenot crate"""
+    out = []
+    for fn in prog.crate_fns(FW):
+        if not fn.has_body:
+            continue
+        fa = an.get(fn)
+        for (b, f, args, t) in calls(fa):
+            if callee_str(f).endswith('Framework::<M, R, T>::transition') and len(args) == 3 and args[2][0] == 'agg' and args[2][2] == 'Signal':
+                out.append((fn, fa, b, args))
+    return out
+
+
+def check_C09(ctx, rep):
+    prog, an = ctx.prog, ctx.an
+    F = fw_fns(prog)
+    rep.rule('C09.R1', 'signal_pending is written only by transition (signal pseudo-state arm) and consumed by take() in trigger_events; '
+             'the signal arm stores exactly one Some(..) on every path, changes no machine state, schedules nothing and returns Unchanged')
+    rep.rule('C09.R2', 'SignalTarget::All is stored only when a different machine already signalled (pending All, or pending AllExcept(p) with '
+             'p != mi); AllExcept carries the signalling machine\'s own index and is stored only when nothing is pending or the pending '
+             'signaller is the same machine')
+    rep.rule('C09.R3', 'delivery: signal_pending is taken after all events are processed; the round loops over 0..runtime.len() and calls '
+             'transition(mi, Signal) on every iteration except exactly when mi equals the excluded index; the second-round call is guarded '
+             'by a second take().is_some() and passes the excluded index; these are the only two Signal call sites; after the first round '
+             'every path to the return consumes signal_pending again (no response signal leaks into the next call)')
+    # R1 writers
+    for name, fn in F.items():
+        fa = an.get(fn)
+        for (pe, v, site) in field_stores(fa, 'signal_pending', 'Framework'):
+            if name == 'new':
+                continue
+            rep.ob('C09.R1', fn, 'writer:signal_pending', name == 'transition', 'stored in %s' % name)
+        for (b, f, args, t) in calls(fa):
+            for a in args:
+                if a[0] == 'ref' and is_field(a[1], 'signal_pending', 'Framework'):
+                    ok = name == 'trigger_events' and callee_str(f).endswith('Option::<T>::take')
+                    if callee_str(f).endswith('fmt') or fn.derived:
+                        continue
+                    rep.ob('C09.R1', fn, 'borrow:signal_pending:' + callee_str(f).split('::')[-1], ok, '%s in %s' % (callee_str(f), name))
+    tr = F['transition']
+    fa = an.get(tr)
+    pfh = an.paths(tr, history=True)
+    sig_val = prog.const_val('maybenot::constants::STATE_SIGNAL')
+
+    def in_signal_arm(S):
+        return any(f[0] == 'eqc' and f[2] == sig_val and next_state_payload(f[1]) for f in S)
+    sp = field_stores(fa, 'signal_pending', 'Framework')
+    rep.count_exact('C09.R1', 'stores to signal_pending in transition', len(sp), 1)
+    for (pe, v, site) in sp:
+        ok, w = all_paths(pfh.at(site[0], site[1]), in_signal_arm)
+        rep.ob('C09.R1', tr, 'store-only-in-signal-arm', ok, '')
+        alts = v[1] if v[0] == 'phi' else (v,)
+        oka = all(a[0] == 'agg' and a[2] == 'Some' for a in alts)
+        rep.ob('C09.R1', tr, 'stores-Some', oka, 'value %s' % shape(v))
+    # the arm: exactly one store on every path, return Unchanged, no state stores / scheduling
+    arm_heads = []
+    for b in sorted(fa.cfg.reach):
+        t = fa.blocks[b]['t']
+        if t['k'] == 'switch':
+            e = fa.operand(t['d'], (b, len(fa.blocks[b]['s'])))
+            if next_state_payload(e):
+                for (v, tgt) in t['ts']:
+                    if v == sig_val:
+                        arm_heads.append(tgt)
+    rep.count_exact('C09.R1', 'signal arms in transition', len(arm_heads), 1)
+    for h in arm_heads:
+        region = fa.cfg.reachable_from(h)
+        lo, hi = min_max_on_paths(fa, h, {s[0] for (_, _, s) in sp}, region)
+        rep.ob('C09.R1', tr, 'arm-stores-pending-exactly-once', (lo, hi) == (1, 1), 'stores on arm paths: min %s max %s' % (lo, hi))
+        bad = []
+        for (pe, v, site, mp) in stores(fa):
+            if site[0] in region and (is_field(pe, 'current_state') or is_field(pe, 'state_limit') or is_field(pe, 'actions') or is_field(pe, 'counter_a') or is_field(pe, 'counter_b')):
+                bad.append(show(pe))
+        for (b, f, args, t) in calls(fa):
+            if b in region and f.get('crate') == FW and any(callee_str(f).endswith(x) for x in ('::schedule_action', '::update_counter', '::transition', '::decrement_limit')):
+                bad.append(callee_str(f))
+        rep.ob('C09.R1', tr, 'arm-changes-nothing-else', not bad, 'stores/calls in the signal arm: %s' % bad)
+        for (b, k, v) in ret_defs(fa):
+            if b in region:
+                rep.ob('C09.R1', tr, 'arm-returns-Unchanged', v[0] == 'agg' and v[2] == 'Unchanged', 'returns %s' % shape(v))
+    # R2
+    def pending_inner(e):
+        """e designates (self.signal_pending as Some).0"""
+        e = unload(e)
+        return e[0] == 'fld' and e[1][0] == 'var' and e[1][2] == 'Some' and is_field(e[1][1], 'signal_pending', 'Framework')
+
+    def pending_payload(e):
+        e = unload(e)
+        return e[0] == 'fld' and e[1][0] == 'var' and e[1][2] == 'AllExcept' and pending_inner(e[1][1])
+    n_all = n_exc = 0
+    for (site, var, flds, ln) in aggregates(fa, 'framework::SignalTarget'):
+        st = pfh.at(site[0], site[1])
+        if var == 'All':
+            n_all += 1
+
+            def other_machine(S):
+                if any(f[0] == 'variant' and f[2] == 'All' and pending_inner(f[1]) for f in S):
+                    return True
+                if has_cmp(S, 'eq', pending_payload, lambda r: r == ('param', 2), False) or has_cmp(S, 'ne', pending_payload, lambda r: r == ('param', 2), True):
+                    return True
+                return False
+            ok, w = all_paths(st, other_machine)
+            rep.ob('C09.R2', tr, 'All-only-after-a-different-machine', ok, '' if ok else 'witness: ' + show_facts(w))
+        elif var == 'AllExcept':
+            n_exc += 1
+            rep.ob('C09.R2', tr, 'AllExcept-carries-own-index', flds.get('0') == ('param', 2), 'AllExcept(%s)' % show(flds.get('0')))
+
+            def lone(S):
+                if any(f[0] == 'variant' and f[2] == 'None' and is_field(f[1], 'signal_pending', 'Framework') for f in S):
+                    return True
+                if has_cmp(S, 'eq', pending_payload, lambda r: r == ('param', 2), True):
+                    return True
+                return False
+            ok, w = all_paths(st, lone)
+            rep.ob('C09.R2', tr, 'AllExcept-only-for-lone-signaller', ok, '' if ok else 'witness: ' + show_facts(w))
+    rep.ob('C09.R2', tr, 'targets-constructed', n_all >= 1 and n_exc >= 1, 'All x%d, AllExcept x%d' % (n_all, n_exc))
+    others = [fn for fn in prog.crate_fns(FW) if fn.has_body and fn is not tr and not fn.derived and aggregates(an.get(fn), 'framework::SignalTarget')]
+    rep.ob('C09.R2', '<inventory>', 'SignalTarget-constructed-only-in-transition', not others, 'other constructors: %s' % [f.short() for f in others])
+    # R3
+    sites = signal_calls(prog, an)
+    rep.count_exact('C09.R3', 'Signal call sites', len(sites), 2)
+    te = F['trigger_events']
+    ta = an.get(te)
+    takes = [(b, args) for (b, f, args, t) in calls(ta) if callee_str(f).endswith('Option::<T>::take') and args and args[0][0] == 'ref' and is_field(args[0][1], 'signal_pending', 'Framework')]
+    rep.count_exact('C09.R3', 'take() of signal_pending in trigger_events', len(takes), 2)
+    loops = ta.cfg.loops()
+    pe_calls = [b for (b, f, args, t) in calls(ta) if callee_str(f).endswith('::process_event')]
+    first_round = [s for s in sites if s[0] is te and any(s[2] in body for body in loops.values())]
+    second_round = [s for s in sites if s[0] is te and not any(s[2] in body for body in loops.values())]
+    rep.ob('C09.R3', te, 'one-looped-and-one-single-site', len(first_round) == 1 and len(second_round) == 1, 'in-loop %d, single %d' % (len(first_round), len(second_round)))
+    if takes and first_round and second_round:
+        takes.sort(key=lambda x: 0 if ta.cfg.dominates(x[0], first_round[0][2]) else 1)
+        t1, t2 = takes[0][0], takes[1][0]
+        # first take after the event loop: not inside the event loop and every process_event call can reach it, not vice versa
+        ev_loop = [h for h, body in loops.items() if any(b in body for b in pe_calls)]
+        ok1 = bool(ev_loop) and all(t1 not in loops[h] for h in ev_loop) and all(ta.cfg.can_reach(b, t1) for b in pe_calls) and not any(ta.cfg.can_reach(t1, b) for b in pe_calls)
+        rep.ob('C09.R3', te, 'pending-taken-after-all-events', ok1, '')
+        fr = first_round[0]
+        rep.ob('C09.R3', te, 'first-take-dominates-round', ta.cfg.dominates(t1, fr[2]), '')
+        # loop shape
+        hs = [h for h, body in loops.items() if fr[2] in body]
+        h = hs[0]
+        body = loops[h]
+        mi = fr[3][1]
+        ok_lv = is_range_loop_var(ta, mi)
+        rng_ok = False
+        if ok_lv:
+            nx = unload(unload(mi)[1][1])  # the next() call
+            # its receiver: &mut iter where iter = into_iter(Range{0, len(runtime)})
+            for x in walk(nx):
+                pass
+        # range construction: Range{start: 0, end: len(&self.runtime)} feeding the loop
+        for (site, var, flds, ln) in aggregates(ta, 'ops::Range') + aggregates(ta, 'range::Range'):
+            if ta.cfg.dominates(site[0], h) and not ta.cfg.dominates(site[0], pe_calls[0] if pe_calls else 0) or True:
+                st_, en_ = flds.get('start'), flds.get('end')
+                if is_const(st_, 0) and is_call(en_, 'len') and contains(en_, lambda x: isinstance(x, tuple) and x and x[0] == 'fld' and x[3] == 'runtime') and ta.cfg.dominates(site[0], fr[2]) and ta.cfg.dominates(t1, site[0]):
+                    rng_ok = True
+        rep.ob('C09.R3', te, 'round-iterates-all-machines', ok_lv and rng_ok, 'loop variable %s over 0..runtime.len()' % show(mi))
+        # every iteration path calls transition unless excluded == mi
+        pf = an.paths(te, history=True, record_calls=lambda f: callee_str(f).endswith('Framework::<M, R, T>::transition'), tag='sig')
+        # blocks of the loop body that jump back to the header
+        ok_iter = True
+        wit = None
+        for (x, lab) in ta.cfg.pred[h]:
+            if x not in body:
+                continue
+            for S in pf.on_edge(x, h):
+                called = any(f[0] == 'called' and f[3] == fr[2] for f in S)
+                excl = has_cmp(S, 'eq', lambda l: True, lambda r: True, True) and any(
+                    f[0] == 'cmp' and f[1] == 'eq' and f[5] is True and (strip_sites(mi) in (f[2], f[3])) for f in S)
+                if not (called or excl):
+                    ok_iter = False
+                    wit = S
+        rep.ob('C09.R3', te, 'every-non-excluded-machine-signalled', ok_iter, '' if ok_iter else 'iteration path without Signal: ' + show_facts(wit))
+        # excluded table
+        def excluded_payload(e):
+            e = unload(e)
+            # (excluded as Some).0 where excluded = phi(None, Some((signal as AllExcept).0))
+            return e[0] == 'fld' and e[1][0] == 'var' and e[1][2] == 'Some'
+        # the comparison operand other than mi is the AllExcept payload of the taken signal
+        st = pf.at_entry(fr[2])
+        okx = True
+        for S in st:
+            for f in S:
+                if f[0] == 'cmp' and f[1] == 'eq' and strip_sites(mi) in (f[2], f[3]):
+                    other = f[3] if f[2] == strip_sites(mi) else f[2]
+                    good = contains(other, lambda x: isinstance(x, tuple) and x and x[0] == 'var' and x[2] == 'AllExcept') and contains(other, lambda x: is_call(x, 'Option::<T>::take'))
+                    okx = okx and good
+        rep.ob('C09.R3', te, 'excluded-is-AllExcept-payload-of-taken-signal', okx, '')
+        # second round
+        sr = second_round[0]
+        st2 = pf.at_entry(sr[2])
+        ok2, w2 = all_paths(st2, lambda S: any(f[0] == 'bcall' and f[3] is True and f[1].endswith('is_some') and contains(f[2], lambda x: is_call(x, 'Option::<T>::take')) for f in S))
+        rep.ob('C09.R3', te, 'second-round-guarded-by-second-take', ok2 and ta.cfg.dominates(t2, sr[2]), '' if ok2 else show_facts(w2))
+        a1 = sr[3][1]
+        oka = contains(a1, lambda x: isinstance(x, tuple) and x and x[0] == 'var' and x[2] == 'AllExcept') and contains(a1, lambda x: is_call(x, 'Option::<T>::take'))
+        rep.ob('C09.R3', te, 'second-round-signals-the-excluded-machine', oka, 'transition(%s, Signal)' % show(a1))
+        # second take after the loop, and every path from a first-round call to the return consumes pending again
+        region = ta.cfg.reachable_from(fr[2])
+        lo, hi = min_max_on_paths(ta, fr[2], {t2}, region)
+        rep.ob('C09.R3', te, 'pending-consumed-after-first-round', lo >= 1, 'take() calls on paths from the first-round Signal to the return: min %s' % lo)
+        rep.ob('C09.R3', te, 'second-take-outside-round-loop', t2 not in body, '')
+    rep.assumptions += ['every CFG path is treated as feasible; delivery counts over concrete histories are not decided',
+                        'ended machines are filtered by the END check of transition (C04.R4)']
+    return 'writers of signal_pending, guards of the All/AllExcept stores, loop shape and take() discipline of the delivery round'
+
+
+# =================================================================== C10
+
+STEP_FNS = ('transition', 'update_counter', 'schedule_action', 'decrement_limit', 'below_action_limits', 'below_limit_blocking', 'below_limit_padding')
+PER_MACHINE_VECS = ('runtime', 'actions', 'counter_zeroed_once', 'machines')
+
+
+def check_C10(ctx, rep):
+    prog, an = ctx.prog, ctx.an
+    F = fw_fns(prog)
+    rep.rule('C10.R1', 'inside the per-machine step functions every write to framework state goes through an element of a per-machine '
+             'vector selected by the machine index parameter, or to a sanctioned shared field {rng: excluded by the deterministic-sampling '
+             'premise; signal_pending: signals}')
+    rep.rule('C10.R2', 'no step function indexes a per-machine vector (runtime, actions, counter_zeroed_once, machines) with anything '
+             'but its machine index parameter')
+    rep.rule('C10.R3', 'every global event (TriggerEvent variants without a machine id, and BlockingBegin) is delivered to every machine: '
+             'each path through its arm of process_event runs the 0..runtime.len() loop and each iteration calls transition(mi, same event); '
+             'id-carrying events return early only when the id is out of range and otherwise call transition(id, same event)')
+    sanctioned = {'rng': 'random stream (excluded by the property\'s premise)', 'signal_pending': 'signals are a sanctioned coupling'}
+    n_idx = 0
+    for name in STEP_FNS:
+        fn = F[name]
+        fa = an.get(fn)
+        has_mi = len(fn.inputs) >= 2 and fn.inputs[1] == 'usize'
+        for (pe, v, site, mp) in stores(fa):
+            root = root_of(pe)
+            if root[0] == 'local':
+                continue
+            chain = field_chain(pe)
+            if not chain:
+                rep.ob('C10.R1', fn, 'store:' + show(pe), False, 'store through an unclassified pointer')
+                continue
+            top = chain[0]
+            if top in sanctioned:
+                rep.ob('C10.R1', fn, 'store:' + top, True, 'sanctioned: ' + sanctioned[top])
+                continue
+            if top in PER_MACHINE_VECS:
+                # find the index right above the vector field
+                e = unload(pe)
+                ix = None
+                x = e
+                while isinstance(x, tuple) and x and x[0] in ('fld', 'var', 'view', 'idx', 'deref'):
+                    if x[0] == 'idx' and is_field(x[1], top, 'Framework'):
+                        ix = x[2]
+                    x = x[1]
+                rep.ob('C10.R1', fn, 'store:%s[..].%s' % (top, '.'.join(chain[1:])), has_mi and ix == ('param', 2), 'store to %s' % show(pe))
+                continue
+            rep.ob('C10.R1', fn, 'store:' + top, False, 'write to shared framework field %s in a per-machine step (%s)' % (top, show(pe)))
+        # &mut borrows of framework fields handed to callees
+        for (b, f, args, t) in calls(fa):
+            for i, a in enumerate(args):
+                op = t['a'][i]
+                pl = op.get('m') or op.get('c')
+                if pl is None or pl['pr'] or not fa.fn.local_ty(pl['l']).startswith('&mut'):
+                    continue
+                if a == ('param', 1):
+                    ok = f.get('crate') == FW and callee_str(f).split('::')[-1] in STEP_FNS
+                    rep.ob('C10.R1', fn, 'passes-self-to:' + callee_str(f).split('::')[-1], ok, '&mut self handed to %s' % callee_str(f))
+                    continue
+                if a[0] == 'ref':
+                    chain = field_chain(a[1])
+                    if root_of(a[1])[0] == 'local' or not chain:
+                        continue
+                    top = chain[0]
+                    if top in sanctioned:
+                        continue
+                    if decl_matches(f, ('IndexMut::index_mut',)):
+                        n_idx += 1
+                        continue
+                    rep.ob('C10.R1', fn, 'mut-borrow:%s->%s' % (top, callee_str(f).split('::')[-1]), False, '&mut %s handed to %s' % (show(a[1]), callee_str(f)))
+        # R2 all index uses
+        seen_ix = 0
+        for b in sorted(fa.cfg.reach):
+            bb = fa.blocks[b]
+            exprs = []
+            for k, s in enumerate(bb['s']):
+                if 'p' in s:
+                    exprs.append(fa.place_expr(s['p'], (b, k)))
+                    if s['rv']['k'] != 'setdiscr':
+                        exprs.append(fa.rvalue(s['rv'], (b, k)))
+            t = bb['t']
+            if t['k'] == 'call':
+                exprs.append(fa.call_value(t, (b, len(bb['s']))))
+            elif t['k'] == 'switch':
+                exprs.append(fa.operand(t['d'], (b, len(bb['s']))))
+            for e in exprs:
+                for x in walk(e):
+                    if isinstance(x, tuple) and x and x[0] == 'idx':
+                        basef = last_field(x[1])
+                        if basef and basef[1] in PER_MACHINE_VECS and (basef[0].endswith('Framework')):
+                            seen_ix += 1
+                            if name.startswith('below_'):
+                                rep.ob('C10.R2', fn, 'index:' + basef[1], False, 'limit predicate indexes %s directly' % basef[1])
+                            else:
+                                rep.ob('C10.R2', fn, 'index:' + basef[1], x[2] == ('param', 2), '%s indexed with %s' % (basef[1], show(x[2])))
+        if not name.startswith('below_'):
+            rep.count_floor('C10.R2', 'per-machine index uses in %s' % name, seen_ix, 1)
+    # R3 global delivery
+    pe_fn = F['process_event']
+    fa = an.get(pe_fn)
+    arms = event_arms(prog, fa)
+    tev = {v['name']: v for v in prog.adt('maybenot::event::TriggerEvent')['variants']}
+    evs = set(prog.variants('maybenot::event::Event'))
+    loops = fa.cfg.loops()
+    pf = an.paths(pe_fn, history=True, record_calls=lambda f: callee_str(f).endswith('Framework::<M, R, T>::transition'), tag='tr')
+    for var, head in sorted(arms.items()):
+        if var not in evs:
+            rep.ob('C10.R3', pe_fn, 'arm:%s:event-exists' % var, False, 'no Event::%s' % var)
+            continue
+        has_id = any(f['name'] == 'machine' for f in tev[var]['fields'])
+        region = fa.cfg.reachable_from(head)
+        tcalls = [(b, args) for (b, f, args, t) in calls(fa) if b in region and callee_str(f).endswith('Framework::<M, R, T>::transition')
+                  and args[2][0] == 'agg' and args[2][2] == var and fa.cfg.dominates(head, b)]
+        broadcast = (not has_id) or var == 'BlockingBegin'
+        rep.ob('C10.R3', pe_fn, 'arm:%s:one-transition-site' % var, len(tcalls) == 1, 'transition(.., Event::%s) sites in the arm: %d' % (var, len(tcalls)))
+        if len(tcalls) != 1:
+            continue
+        cb, cargs = tcalls[0]
+        if broadcast:
+            hs = [h for h, body in loops.items() if cb in body and fa.cfg.dominates(head, h)]
+            ok = len(hs) == 1 and is_range_loop_var(fa, cargs[1])
+            rng = False
+            for (site, v2, flds, ln) in aggregates(fa, 'ops::Range') + aggregates(fa, 'range::Range'):
+                if fa.cfg.dominates(head, site[0]) and fa.cfg.dominates(site[0], cb):
+                    if is_const(flds.get('start'), 0) and is_call(flds.get('end'), 'len') and contains(flds.get('end'), lambda x: isinstance(x, tuple) and x and x[0] == 'fld' and x[3] == 'runtime'):
+                        rng = True
+            rep.ob('C10.R3', pe_fn, 'arm:%s:loops-over-all-machines' % var, ok and rng, 'transition(%s, %s) inside for 0..runtime.len()' % (show(cargs[1]), var))
+            if not hs:
+                continue
+            h = hs[0]
+            body = loops[h]
+            # every path from the arm head to the return goes through the loop header
+            lo, hi = min_max_on_paths(fa, head, {h}, region)
+            rep.ob('C10.R3', pe_fn, 'arm:%s:no-path-skips-the-loop' % var, lo >= 1, 'paths from the arm head to return pass the loop header: min %s' % lo)
+            # every iteration calls transition
+            ok_it = True
+            wit = None
+            for (x, lab) in fa.cfg.pred[h]:
+                if x in body:
+                    for S in pf.on_edge(x, h):
+                        if not any(f[0] == 'called' and f[3] == cb for f in S):
+                            ok_it, wit = False, S
+            rep.ob('C10.R3', pe_fn, 'arm:%s:every-iteration-transitions' % var, ok_it, '' if ok_it else 'iteration without transition: ' + show_facts(wit))
+            # loop exits only by exhausting the range (no break/return inside)
+            exits = [(x, y) for x in body for (y, l) in fa.cfg.succ[x] if y not in body]
+            ok_ex = all(fa.blocks[y]['t']['k'] == 'unreachable' or (fa.blocks[x]['t']['k'] == 'switch' and any(f[0] == 'variant' and f[2] == 'None' for f in pf.edge_facts(x, l))) for x in body for (y, l) in fa.cfg.succ[x] if y not in body)
+            rep.ob('C10.R3', pe_fn, 'arm:%s:loop-runs-to-exhaustion' % var, ok_ex, 'loop exits: %d' % len(exits))
+        else:
+            # id-carrying: every return in the arm either follows the transition or the out-of-range edge
+            ok_id = is_call(cargs[1], 'into_raw') and is_field(cargs[1][2][0], 'machine', 'TriggerEvent')
+            rep.ob('C10.R3', pe_fn, 'arm:%s:transition-for-event-id' % var, ok_id, 'transition(%s, %s)' % (show(cargs[1]), var))
+            for r in fa.cfg.returns:
+                for S in pf.at_entry(r):
+                    if not any(f[0] == 'variant' and f[2] == var and 'param' in str(f[1]) for f in S):
+                        continue
+                    called = any(f[0] == 'called' and f[3] == cb for f in S)
+                    oor = cmp_int_true(S, 'le', lambda l: is_call(l, 'len'), lambda r2: is_call(r2, 'into_raw'))
+                    rep.ob('C10.R3', pe_fn, 'arm:%s:return-only-after-transition-or-out-of-range' % var, called or oor, '' if (called or oor) else show_facts(S))
+    rep.assumptions += ['the framework-wide fraction limits are a sanctioned coupling (reads of the global counters in the limit predicates)',
+                        'shared blocking state reported by the integrator is a sanctioned coupling']
+    return 'inventory of shared writes and index uses in the per-machine step functions; delivery completeness of global events'
